@@ -167,7 +167,7 @@ func (p Prop) exec(c *Case, f *ops.Fault) (*execInfo, error) {
 			}
 		}
 		if c.HookWrites && (hc.Hook == "BeforeSave" || hc.Hook == "BeforeDelete") {
-			if err := hc.Tx.Create(&fam.Marker{Text: fmt.Sprintf("marker-%s-%s", hc.Hook, ev.Rec)}).Error; err != nil {
+			if err := hc.Tx.Create(&fam.Marker{Text: fmt.Sprintf("marker-%s-%d", hc.Hook, info.markers)}).Error; err != nil {
 				return fmt.Errorf("marker write through the hook's tx failed: %w", err)
 			}
 			info.markers++
@@ -540,6 +540,7 @@ func (p Prop) Run(ci interface{}, focus *core.Violation) *core.Outcome {
 	} else {
 		id := 0
 		faults = ops.HookSites(sr.Hooks, &id)
+		ops.SortFaults(faults)
 		out.Count("sites_total", int64(len(faults)))
 		if c.MaxSites > 0 && len(faults) > c.MaxSites {
 			r := core.NewRand(c.Pick)
@@ -559,7 +560,7 @@ func (p Prop) Run(ci interface{}, focus *core.Violation) *core.Outcome {
 			return out
 		}
 		out.Runs++
-		h := core.Hash(x.sr.TraceHashParts()...)
+		h := ops.FaultedHash(h0, f.String(), x.sr)
 		if !seen[h] {
 			seen[h] = true
 			out.Hashes = append(out.Hashes, h)
